@@ -287,6 +287,37 @@ pub fn run(ctx: &Ctx) -> Report {
     }
     let st = explore(&ctx.pool, jobs, j);
     rep.part("hundreds of source arguments (one directory each) and round-robin scheduling", st, serde_json::json!({}));
+    // the same at atomic grain with priorities that are honoured the moment a thread is woken (PrioEager): who drops
+    // the last reference to a file's handle is decided between two instructions, and a rule such as "whoever is last
+    // closes it later" shows only when the other side is always the last
+    if sets::ATOMIC_AVAILABLE.load(std::sync::atomic::Ordering::Relaxed) {
+        let mut jobs = vec![];
+        for d in drivers() {
+            for n in [150usize, 300] {
+                let mut sc = Scenario::new(&format!("fds-atomic-{}-w2-n{}", d, n), tree(n), &["-r", "--driver", d, "-w", "2", "src", "dst"]);
+                sc.prog = crate::scen::Prog::XcpAtomic;
+                let sc = Arc::new(sc);
+                let os = orders(d, 2);
+                let mut picks: Vec<Vec<String>> = vec![];
+                // one order per role in front (the rest as enumerated first), plus the reverse of each
+                for o in os.iter() {
+                    if !picks.iter().any(|p: &Vec<String>| p[0] == o[0]) {
+                        picks.push(o.clone());
+                        let mut r = o.clone();
+                        r[1..].reverse();
+                        picks.push(r);
+                    }
+                }
+                for o in picks {
+                    let mut sp = RunSpec::base(Policy::PrioEager(o));
+                    sp.step_limit = 20_000_000;
+                    jobs.push((sc.clone(), sp, 0usize));
+                }
+            }
+        }
+        let st = explore(&ctx.pool, jobs, j);
+        rep.part("atomic grain: 150 / 300 files under eager priority orders (each role first)", st, serde_json::json!({}));
+    }
     if !q {
         // one deviation around the worst order at n=140
         let mut jobs = vec![];
